@@ -234,7 +234,11 @@ int parse_instruction_6502(AsmContext *asm_context, char *instr)
     {
       if (IS_TOKEN(token, '#'))
       {
-        if (GET_TOKEN() == TOKEN_EOL) { break; }
+        if (GET_TOKEN() == TOKEN_EOL)
+        {
+          print_error_unexp(asm_context, token);
+          return -1;
+        }
 
         if (get_num(asm_context, token, &token_type, &num, &size) == -1)
         {
@@ -284,7 +288,12 @@ int parse_instruction_6502(AsmContext *asm_context, char *instr)
       {
         op = OP_IMMEDIATE;
 
-        if (GET_TOKEN() == TOKEN_EOL) { break; }
+        // A '#' without a value isn't #0.
+        if (GET_TOKEN() == TOKEN_EOL)
+        {
+          print_error_unexp(asm_context, token);
+          return -1;
+        }
 
         if (get_num(asm_context, token, &token_type, &num, &size) == -1)
         {
